@@ -261,7 +261,7 @@ type scenario struct {
 }
 
 var terminators = []string{"peer-close", "stream-error", "handler-error", "deadline", "transport-eof"}
-var forced = []string{"X1a", "X1b", "X2", "X3", "X4", "X5a", "X5b", "X5c", "X6", "X7", "X8", "X9", "X10", "X11", "X12", "X13", "X14", "X15"}
+var forced = []string{"X1a", "X1b", "X2", "X3", "X4", "X5a", "X5b", "X5c", "X6", "X7", "X8", "X9", "X10", "X11", "X12", "X13", "X14", "X15", "X16"}
 
 func run(c *core.Case) {
 	if c.Index < len(forced)*2 {
@@ -437,7 +437,13 @@ func (w *world) terminate(kind string) {
 			text = "<text xmlns='urn:ietf:params:xml:ns:xmpp-streams' xml:lang='en'>" + strings.Repeat("é", w.errText) + "</text>"
 			w.c.Count("terminators_with_a_stream_error_larger_than_the_output_buffer", 1)
 		}
-		w.p.Send(`<stream:error><conflict xmlns='urn:ietf:params:xml:ns:xmpp-streams'/>` + text + `</stream:error></stream:stream>`)
+		// what follows the error: the closing tag (the usual case), nothing at all
+		// (the peer keeps its stream open), or white space
+		tail := []string{"</stream:stream>", "</stream:stream>", "", " \n "}[w.c.Index%4]
+		if tail != "</stream:stream>" {
+			w.c.Count("stream_errors_not_followed_by_the_closing_tag", 1)
+		}
+		w.p.Send(`<stream:error><conflict xmlns='urn:ietf:params:xml:ns:xmpp-streams'/>` + text + `</stream:error>` + tail)
 	case "handler-error":
 		if w.errText > 0 {
 			w.c.Count("terminators_with_a_stream_error_larger_than_the_output_buffer", 1)
@@ -454,7 +460,27 @@ func (w *world) terminate(kind string) {
 	case "deadline":
 		// the peer stays silent; the application sets a close deadline and closes
 		e := w.h.begin("app", "setclosedeadline", "")
-		err := w.p.S.SetCloseDeadline(time.Now().Add(50 * time.Millisecond))
+		// a deadline that is still to come, or one that has passed already when it
+		// is set (Serve is blocked in a read either way)
+		dl := time.Now().Add(50 * time.Millisecond)
+		switch w.c.Index % 5 {
+		case 1:
+			dl = time.Now().Add(-time.Second)
+			w.c.Count("close_deadlines_already_passed_when_set", 1)
+		case 3:
+			dl = time.Now()
+			w.c.Count("close_deadlines_already_passed_when_set", 1)
+		}
+		if !dl.After(time.Now()) {
+			// the interesting case is a session that is already blocked in its read
+			for i := 0; i < 2000 && w.p.Lib.BlockedReads() == 0; i++ {
+				time.Sleep(time.Millisecond)
+			}
+			if w.p.Lib.BlockedReads() > 0 {
+				w.c.Count("close_deadlines_already_passed_when_set_with_serve_blocked_in_a_read", 1)
+			}
+		}
+		err := w.p.S.SetCloseDeadline(dl)
 		w.h.end(e, fmt.Sprint(err), "")
 		if w.cancelledSend {
 			// a transmit whose context is already over, after the close deadline
@@ -487,6 +513,11 @@ func (w *world) finish(term string, smp *sample) {
 	if done, quiet := stall.AwaitQuiet(fin, w.progress, 10*time.Second, 100*time.Second); !done {
 		if ps := stall.Check(nil, 0); quiet && len(ps) > 0 {
 			c.Violate("close:serve-stall:"+term+":"+ps[0].Func, "Serve did not return after terminator %q and the system is quiescent; parked:\n%s", term, ps[0].Stack)
+		} else if quiet && term == "stream-error" && w.p.Lib.BlockedNoDeadline() > 0 {
+			// the peer's stream error has been delivered completely (whether or not
+			// its closing tag follows), nothing else is going to arrive, and the
+			// session's read is parked in the transport with no deadline armed
+			c.Violate("close:serve:stream-error-not-acted-on", "the peer's stream error was delivered and the peer now stays silent, but Serve is blocked in a transport read with no read deadline armed instead of returning the error")
 		} else if quiet && term == "deadline" && w.p.Lib.BlockedNoDeadline() > 0 {
 			// SetCloseDeadline returned nil, the peer is silent by construction, and
 			// the session's read is parked in the transport with no read deadline
@@ -1438,6 +1469,77 @@ func runForced(c *core.Case, id string, s2s bool) {
 		w.p.Send("<message id='x9-after'><body>still served</body></message>")
 		smp.Closers = 1
 		c.Count("close_vs_default_reply_scenarios", 1)
+	case "X16":
+		// The application holds a token writer in mid-element; Encode,
+		// EncodeElement, Send and SendElement calls queue behind it with contexts
+		// that end while they wait; then the writer is finished and closed.
+		// Whatever those calls return, the output stream must be free afterwards:
+		// the Close that follows writes the closing tag.
+		e := w.h.begin("sender", "transmit:TokenWriter", "x16")
+		tw := w.p.S.TokenWriter()
+		st := xml.StartElement{Name: xml.Name{Local: "message"}, Attr: []xml.Attr{{Name: xml.Name{Local: "vm"}, Value: "x16"}}}
+		err := tw.EncodeToken(st)
+		ctx, cancel := context.WithTimeout(context.Background(), 30*time.Millisecond)
+		var sw sync.WaitGroup
+		for _, name := range []string{"EncodeElement", "Encode", "Send", "SendElement"} {
+			for _, en := range entries {
+				if en.name != name {
+					continue
+				}
+				en := en
+				sw.Add(1)
+				go func() {
+					defer sw.Done()
+					m := "x16-" + en.name
+					e := w.h.begin("sender-"+en.name, "transmit:"+en.name, m)
+					var err error
+					c.Guard(en.name, func() { err = en.do(ctx, w.p.S, m) })
+					out, d := classifyErr(err)
+					w.h.end(e, out, d)
+				}()
+			}
+		}
+		<-ctx.Done()
+		time.Sleep(20 * time.Millisecond)
+		cancel()
+		if err == nil {
+			err = tw.EncodeToken(st.End())
+		}
+		if cerr := tw.Close(); err == nil {
+			err = cerr
+		}
+		out, d := classifyErr(err)
+		w.h.end(e, out, d)
+		queued := make(chan struct{})
+		go func() { sw.Wait(); close(queued) }()
+		select {
+		case <-queued:
+		case <-time.After(5 * time.Second):
+			if done, quiet := stall.AwaitQuiet(queued, w.progress, 5*time.Second, 60*time.Second); !done {
+				if ps := stall.Check(nil, 0); quiet && len(ps) > 0 {
+					c.Violate("close:actor-stall:"+ps[0].Func, "X16: the token writer is closed but transmit calls that queued behind it do not return and the system is quiescent; parked:\n%s", ps[0].Stack)
+				} else {
+					c.Inconclusive("X16: the queued transmit calls did not return after the token writer was closed (quiescent=%v)", quiet)
+				}
+				w.p.Peer.Close()
+				w.p.Lib.Close()
+				return
+			}
+		}
+		smp.Senders = 5
+		c.Count("transmits_whose_context_ends_while_queued_behind_a_token_writer_scenarios", 1)
+		cl := closeAsync("closer1")
+		if done, quiet := stall.AwaitQuiet(cl, w.progress, 5*time.Second, 60*time.Second); !done {
+			if ps := stall.Check(nil, 0); quiet && len(ps) > 0 {
+				c.Violate("close:actor-stall:"+ps[0].Func, "X16: every transmit call has returned and the token writer is closed, but Close does not return and the system is quiescent; parked:\n%s", ps[0].Stack)
+			} else {
+				c.Inconclusive("X16: Close did not return (quiescent=%v)", quiet)
+			}
+			w.p.Peer.Close()
+			w.p.Lib.Close()
+			return
+		}
+		smp.Closers = 1
 	case "X7":
 		// A sender's context ends while its element is being written (the common
 		// "defer cancel()" idiom, moved a few microseconds earlier).  The helper
@@ -1498,7 +1600,9 @@ func runForced(c *core.Case, id string, s2s bool) {
 		smp.Senders = 1
 		c.Count("cancelled_sender_deadline_scenarios", 1)
 	case "X14": // the close deadline is set, then a transmit whose context is over, and no Close at all: the deadline alone must end Serve
-		w.cancelledSend, w.noClose = true, true
+		// (first round: the deadline alone, already passed when it is set; second
+		// round: a deadline to come, followed by the transmit)
+		w.cancelledSend, w.noClose = c.Index >= len(forced), true
 		term = "deadline"
 		smp.Terminator = term
 		c.Count("close_deadline_then_cancelled_transmit_scenarios", 1)
@@ -1566,7 +1670,7 @@ func Prop() *core.Prop {
 		Run: run,
 		Require: []string{"forced_scenarios", "stress_histories", "closed_then_large_stream_error_scenarios", "close_deadline_then_cancelled_transmit_scenarios", "cancelled_transmits_after_setclosedeadline", "sessions_whose_xml_console_fails_at_close_time", "readers_after_serve_returned", "second_serve_returned", "terminators_with_a_stream_error_larger_than_the_output_buffer", "close_under_write_fault", "close_returns_with_wire_snapshot", "synchronous_transport_closes", "cancelled_sender_deadline_scenarios", "close_deadline_during_loop_scenarios", "close_vs_default_reply_scenarios", "close_deadline_extended_scenarios", "transmits_queued_behind_blocked_close_scenarios", "unanswered_iqs_injected", "x9_close_queued_behind_writer", "x9_default_reply_queued_behind_writer", "layered_transport_histories", "layered_transport_close_deadline", "yield:close.enter", "yield:senderr.enter", "transmits_overlapping_a_close",
 			"transmits_begun_after_a_close_returned", "late_transmits", "porcupine_checks",
-			"close_while_shutdown_waits_for_input_scenarios", "handler_errors_of_shape_wrap-eof", "handler_errors_of_shape_plain", "serve_returned:peer-close", "serve_returned:stream-error", "serve_returned:handler-error", "serve_returned:deadline", "serve_returned:transport-eof"},
+			"close_while_shutdown_waits_for_input_scenarios", "transmits_whose_context_ends_while_queued_behind_a_token_writer_scenarios", "stream_errors_not_followed_by_the_closing_tag", "close_deadlines_already_passed_when_set", "close_deadlines_already_passed_when_set_with_serve_blocked_in_a_read", "handler_errors_of_shape_wrap-eof", "serve_returned:peer-close", "serve_returned:stream-error", "serve_returned:handler-error", "serve_returned:deadline", "serve_returned:transport-eof"},
 		ReplayRepeats: 10,
 		CaseTimeout:   150 * time.Second,
 	}
